@@ -208,6 +208,34 @@ def same_object(draw, tier):
     return {"model": {"shared": [sh], "root": node}}
 
 
+@st.composite
+def big_conflict(draw, tier):
+    """LARGE models (60-1000 objects) with at most ONE flaw placed far from its counterpart in every traversal order: a leaf id
+    that carries other bounds in a distant branch, or an explicit sub-proposition id defined differently in a distant
+    branch; the flawless variants must be accepted"""
+    n = draw(st.sampled_from([60, 128, 255, 256, 257, 300, 513, 1000]))
+    flaw = draw(st.sampled_from(["bounds", "bounds", "compound", "compound", "none"]))
+    shape = draw(st.sampled_from(["flat", "rules"]))
+    if shape == "flat":
+        kids = [_leaf("a%04d" % i) for i in range(n)]
+    else:
+        kids = [{"k": draw(st.sampled_from(["Any", "All"])), "id": draw(st.sampled_from(["R%04d" % i, None])), "c": [_leaf("x%04d" % i), _leaf("y%04d" % i)]} for i in range(n // 3 + 1)]
+    where = draw(st.sampled_from(["first", "last", "middle"]))
+    target = {"first": 0, "last": len(kids) - 1, "middle": len(kids) // 2}[where]
+    sub_id = draw(st.sampled_from(["zz_sub", "0_sub", "M_sub"]))          # sorts after / before / between the other ids
+    if flaw == "bounds":
+        victim = kids[target] if shape == "flat" else kids[target]["c"][0]
+        kids.append({"k": "Any", "id": sub_id, "c": [_leaf(victim["id"], draw(st.sampled_from([(0, 5), (-1, 1), (1, 1)]))), _leaf("extra_y")]})
+    elif flaw == "compound":
+        b1 = {"k": "Any", "id": "B", "c": [_leaf("p"), _leaf("q")]}
+        b2 = {"k": "Any", "id": "B", "c": [_leaf("p"), _leaf("r")]} if draw(st.booleans()) else {"k": "All", "id": "B", "c": [_leaf("p"), _leaf("q")]}
+        kids.insert(0 if where != "first" else len(kids), {"k": "All", "id": "holder1", "c": [b1, _leaf("h1")]})
+        kids.append({"k": "Any", "id": sub_id, "c": [{"k": "All", "id": None, "c": [b2, _leaf("h2")]}, _leaf("extra_y")]})
+    else:
+        kids.append({"k": "Any", "id": sub_id, "c": [_leaf("extra_x"), _leaf("extra_y")]})
+    return {"model": {"k": draw(st.sampled_from(["All", "Any"])), "id": draw(st.sampled_from(["ROOT", None])), "c": kids}}
+
+
 def _resolve(spec):
     """explicit ids given as {"gen_of": node spec} become the generated id of that node"""
     spec = copy.deepcopy(spec)
@@ -338,6 +366,7 @@ def tree(draw, tier):
 def parts(tier):
     return [Part("class_twins", strategy=lambda t: S.class_twin_spec().map(lambda s_: {"model": s_}), check=check_complete, quick=(1, 300), thorough=(2, 3000)), Part("by_reference", strategy=lambda t: S.by_reference_spec().map(lambda s_: {"model": s_}), check=check_complete, quick=(1, 200), thorough=(2, 2000))] + [
         Part("adversarial", strategy=lambda t: adversarial(t), check=check_sound, quick=(6, 800), thorough=(12, 8000), fuzz=(2, 60000)),
+        Part("big_conflict", strategy=lambda t: big_conflict(t), check=check_complete, quick=(1, 60), thorough=(2, 800)),
         Part("same_object", strategy=lambda t: same_object(t), check=check_sound, quick=(1, 300), thorough=(2, 3000)),
         Part("coincidence", strategy=lambda t: coincidence(t), check=check_coincidence, quick=(1, 400), thorough=(2, 4000)),
         Part("tree", strategy=lambda t: tree(t), check=check_complete, quick=(1, 600), thorough=(2, 4000)),
